@@ -46,6 +46,7 @@ func main() {
 		deadline := fs.Int("deadline", 0, "wall-clock cap in seconds (default per tier)")
 		hashes := fs.String("hashes", "", "write per-run history hashes to this file")
 		noev := fs.Bool("no-evidence", false, "do not write the evidence file")
+		to := fs.Int("to", 0, "run only units [0,to)")
 		if len(os.Args) < 3 {
 			fmt.Fprintln(os.Stderr, "usage: goatsim run <ID> [flags]")
 			os.Exit(2)
@@ -69,7 +70,7 @@ func main() {
 				dl = 45 * time.Minute
 			}
 		}
-		os.Exit(core.RunDriver(core.DriverOpts{Prop: id, Tier: *tier, Seed: *seed, VerifDir: *dir, Workers: *workers, Deadline: dl, Hashes: *hashes, NoEvid: *noev}))
+		os.Exit(core.RunDriver(core.DriverOpts{Prop: id, Tier: *tier, Seed: *seed, VerifDir: *dir, Workers: *workers, Deadline: dl, Hashes: *hashes, NoEvid: *noev, To: *to}))
 	case "worker":
 		fs := flag.NewFlagSet("worker", flag.ExitOnError)
 		var o core.WorkerOpts
